@@ -116,9 +116,57 @@ def install(M):
 
     def abbrev(P, c, args, dt):
         return unit()
+    def exec_git_stdin(P, c, args, dt):
+        argv = [bytes(concrete_bytes(as_bytes(a)) or b'?').decode('utf-8', 'replace') for a in elems_of(args[0])]
+        if 'cat-file' not in argv or '--batch-check' not in argv:
+            raise Unsupported('exec_git_stdin %r without a harness answer' % (argv,))
+        raw = [(b.v if isinstance(b, Sc) and b.concrete else b) for b in elems_of(args[1])]
+        text = bytes(concrete_bytes(raw)).decode()
+        notes = P.state.get('notes', {})
+        layout = P.state.get('notes_layout', {})
+        out = ''
+        for line in text.split('\n'):
+            if not line:
+                continue
+            spec = line
+            path = line.split(':', 1)[1] if ':' in line else line
+            sha = path.replace('/', '')
+            how = layout.get(sha, 'flat')
+            has = notes.get(sha) is not None
+            depth = path.count('/')
+            if has and ((how == 'flat' and depth == 0) or (how == 'fanout' and depth == 1) or (how == 'deep' and depth == 2)):
+                out += ('%040x' % (int.from_bytes(sha.encode(), 'big') % (1 << 159))) + ' blob 10\n'
+            else:
+                out += spec + ' missing\n'
+        P.events.append(('batch_check', text))
+        return ok(Agg('std::process::Output', [Opaque('ExitStatus', 0), VecV([Sc(b, 8) for b in out.encode()]), VecV([])]))
     M.env['git::repository::Repository::global_args_for_exec'] = global_args
     M.env['git::repository::exec_git'] = exec_git
+    M.env['git::repository::exec_git_stdin'] = exec_git_stdin
     M.env['commands::blame::Repository::populate_hunk_abbrev_shas'] = abbrev
+
+    def noop(P, c, args, dt):
+        return unit()
+
+    def no_files(P, c, args, dt):
+        return VecV([])
+
+    def cfg_str(P, c, args, dt):
+        return ok(none())
+
+    def cred_new(P, c, args, dt):
+        return Opaque('CredentialStore', None)
+
+    def cred_load(P, c, args, dt):
+        return ok(none())
+
+    def println(P, c, args, dt):
+        return unit()
+    M.env['authorship::prompt_utils::enrich_prompt_messages'] = noop
+    M.env['commands::blame::get_files_for_prompt_hash'] = no_files
+    M.env['git::repository::Repository::config_get_str'] = cfg_str
+    M.env['auth::credentials::CredentialStore::new'] = cred_new
+    M.env['auth::credentials::CredentialStore::load'] = cred_load
 
 
 def plan(tier, seed):
@@ -144,6 +192,16 @@ def plan(tier, seed):
                         if nh == 2 and o not in (0, 3, 5, 6):
                             continue
                         tasks.append(('overlay', {'sizes': list(sizes), 'notes': list(notes), 'same_commit': same_commit, 'opts': o}))
+    for layout in ('fanout', 'deep'):
+        for o in (0, 3, 6):
+            tasks.append(('overlay', {'sizes': [2], 'notes': ['note'], 'same_commit': False, 'opts': o, 'layout': layout}))
+            tasks.append(('overlay', {'sizes': [1, 1], 'notes': ['note', 'none'], 'same_commit': False, 'opts': o, 'layout': layout}))
+    # K5
+    for n in (1, 2):
+        tasks.append(('json_lines', {'n': n}))
+    for first in range(3):
+        for gap in (1, 2):
+            tasks.append(('json_lines', {'n': 3, 'first': first, 'gap': gap}))
     # K4
     for sizes in ([1], [2], [1, 1], [2, 1], [1, 2], [2, 2], [1, 1, 1]):
         n = len(sizes)
@@ -247,12 +305,14 @@ def ob_overlay(h, shape):
                 notes[sha] = log
                 note_desc[sha] = desc
     P.state['notes'] = notes
+    # how git laid the notes tree out: flat (<sha>), one fan-out level (<aa>/<rest>) or two (<aa>/<bb>/<rest>, large notes refs)
+    P.state['notes_layout'] = {k: shape.get('layout', 'flat') for k in notes}
     o = shape.get('opts', 0)
     by_hash = bool(o & 1)
     human_as_human = bool(o & 2)
     mark_unknown = bool(o & 4)
     opts = mk_options(M, by_hash, human_as_human, mark_unknown)
-    h.inputs_struct = {'hunks': dh, 'notes': {k: desc_json(v) for k, v in note_desc.items()}, 'file': 'new.rs',
+    h.inputs_struct = {'hunks': dh, 'notes': {k: desc_json(v) for k, v in note_desc.items()}, 'file': 'new.rs', 'layout': shape.get('layout', 'flat'),
                        'options': {'use_prompt_hashes_as_names': by_hash, 'return_human_authors_as_human': human_as_human, 'mark_unknown': mark_unknown}}
     hv = VecV(hunks)
     try:
@@ -375,7 +435,80 @@ def int_digits(P, v):
     return list(fmt_digits(P, v, 32, False))
 
 
-OBLIGATIONS = {'lookup': ob_lookup, 'overlay': ob_overlay, 'porcelain': ob_porcelain}
+BL = 'commands::blame'
+PRREC = 'authorship::authorship_log::PromptRecord'
+AGENTID = 'authorship::working_log::AgentId'
+
+
+def ob_json_lines(h, shape):
+    """K5: the JSON output lists exactly the lines the per-line result attributes to each session
+    (the human-readable output is written from the same per-line map)"""
+    P = h.P
+    M = P.M
+    n = shape['n']
+    l0 = h.u32('l0', 1, 90)
+    lines = [l0]
+    for i in range(1, n):
+        gap = shape['gap'] if (i == 1 and shape.get('gap')) else 1 + h.choice(2)
+        lines.append(binop('Add', lines[-1], Sc(gap, 32)))
+    who = [['s1', 's2', 'Jane'][shape['first'] if (i == 0 and shape.get('first') is not None) else h.choice(3)] for i in range(n)]
+    la = MapV('hash', [[ln, pystring(w)] for ln, w in zip(lines, who)], 'map')
+    recs = []
+    for sname in ('s1', 's2'):
+        agent = mk_struct(M, AGENTID, tool=pystring('t'), id=pystring('id-' + sname), model=pystring('m'))
+        recs.append([pystring(sname), mk_struct(M, PRREC, agent_id=agent, human_author=none(), messages=VecV([]), total_additions=Sc(0, 32), total_deletions=Sc(0, 32),
+                                                accepted_lines=Sc(0, 32), overriden_lines=Sc(0, 32), messages_url=none())])
+    prompts = MapV('hash', recs, 'map')
+    h.inputs_struct = {'lines': lines, 'authors': who}
+    repo = Agg('git::repository::Repository', [])
+    P.state['json'] = []
+    try:
+        r = P.call_named(BL + '::output_json_format', [Ref(Cell(repo)), Ref(Cell(la)), Ref(Cell(prompts)), SliceRef(VecV([]), 0, 0), Ref(Cell(MapV('hash', [], 'map'))), pystr('f.rs')])
+    except Panic as e:
+        h.panic('K5-no-panic', e.msg)
+        return
+    h.require(r.var == 'Ok', 'K5-json-ok', 'JSON output failed')
+    js = P.state.get('json', [])
+    val = js[-1]['val'] if js else None
+    if val is None:
+        h.require(False, 'K5-json-serialized', 'nothing was serialized')
+        return
+    lm = tgt(val).f[0]          # JsonBlameOutput.lines : BTreeMap<String, String>
+    # decode the keys  "a" | "a-b"  into z3 membership conditions over a fresh line l
+    l = h.u32('l', 1, 200)
+    per = {}
+    for k_, v_ in lm.ent:
+        kb = list(as_bytes(k_))
+        sess = bytes(concrete_bytes(as_bytes(v_))).decode()
+        dash = None
+        for i_, b in enumerate(kb):
+            if P.branch(byte_eq(b, 45)):
+                dash = i_
+                break
+        from mirsym.models.strs import parse_int
+
+        def parse_digits(P2, bs_):
+            r_ = parse_int(P2, mk_str(list(bs_)), 32, False)
+            if r_.var != 'Ok':
+                raise Unsupported('JSON line key is not a number')
+            return r_.f[0]
+        if dash is None:
+            a = parse_digits(P, kb)
+            cond = binop('Eq', l, a).z()
+        else:
+            a = parse_digits(P, kb[:dash])
+            b_ = parse_digits(P, kb[dash + 1:])
+            cond = z3.And(binop('Ge', l, a).z(), binop('Le', l, b_).z())
+        per.setdefault(sess, []).append(cond)
+    for sname in ('s1', 's2'):
+        want = z3.Or([binop('Eq', l, ln).z() for ln, w in zip(lines, who) if w == sname] + [z3.BoolVal(False)])
+        got = z3.Or(per.get(sname, []) + [z3.BoolVal(False)])
+        h.require(want == got, 'K5-json-lists-exactly-the-sessions-lines', 'the JSON `lines` map attributes a different set of lines to %s than the per-line result' % sname)
+    h.require(set(per) <= {'s1', 's2'}, 'K5-json-names-only-sessions', 'the JSON `lines` map names %r' % sorted(per))
+    h.sample = h.witness()
+
+
+OBLIGATIONS = {'lookup': ob_lookup, 'overlay': ob_overlay, 'porcelain': ob_porcelain, 'json_lines': ob_json_lines}
 
 
 def _concrete_expected(desc, file, line):
@@ -513,6 +646,14 @@ def replay(v, native):
             txt = native('c09_note_text', {'note': desc, 'base': shas[name]})['text']
             open(os.path.join(tmp, '.note'), 'w').write(txt)
             _git(tmp, env, 'notes', '--ref=ai', 'add', '-f', '-F', '.note', shas[name])
+            lay = inp.get('layout', 'flat')
+            if lay != 'flat':
+                sha_ = shas[name]
+                blob = _git(tmp, env, 'rev-parse', 'refs/notes/ai:' + sha_).strip()
+                newp = (sha_[:2] + '/' + sha_[2:]) if lay == 'fanout' else (sha_[:2] + '/' + sha_[2:4] + '/' + sha_[4:])
+                stream = 'commit refs/notes/ai\ncommitter v <v@v> 1700000000 +0000\ndata 0\nfrom refs/notes/ai^0\nD %s\nM 100644 %s %s\n\n' % (sha_, blob, newp)
+                import subprocess as _sp
+                _sp.run(['git', 'fast-import', '--quiet'], cwd=tmp, env=env, input=stream.encode(), check=True, stdout=_sp.PIPE, stderr=_sp.PIPE)
         hunks = [{'final_start': hk['final_start'], 'orig_start': hk['orig_start'], 'size': hk['size'], 'commit_sha': shas[hk['commit']]} for hk in inp['hunks']]
         r = native('c09_overlay', {'repo': tmp, 'file': inp['file'], 'hunks': hunks, 'options': inp['options']})
         if 'panic' in r:
